@@ -265,6 +265,8 @@ func init() {
 			checkComparator(c, "R1.1")
 			checkOpsConcatenation(c)
 			checkWitnessAll(c, "R5.3")
+			// the histories git-bug writes itself pass these refusals: the merge commit is dated after both branches were witnessed (shared with C01/C05)
+			checkMergeCommitPack(c)
 			// git-bug must not itself produce a history it refuses: merge joins related histories only (shared with C02)
 			ruleDocsMerge(c)
 			checkMergeFns(c, newEffects(c.W))
